@@ -51,7 +51,7 @@ pub fn scenario(family: &str, seed: u64) -> Scenario {
         l.cc = if rng.random_bool(0.3) { "bbr".into() } else { "cubic".into() };
         l.max_mtu = pick(rng, &[1300u16, 1350, 1500, 4000, 9000]);
     }
-    let mut sc = Scenario { seed, family: family.into(), c, s, net: net.clone(), streams: vec![], close: "c".into(), close_at_us: 0, linger_us: 300_000, deadline_us: 120_000_000, rebinds: vec![], cid_lifetime_s: 0 };
+    let mut sc = Scenario { seed, family: family.into(), c, s, net: net.clone(), streams: vec![], close: "c".into(), close_at_us: 0, linger_us: 300_000, deadline_us: 120_000_000, rebinds: vec![], cid_lifetime_s: 0, violation: None };
     match family {
         // clean network, default windows: the happy path
         "clean" => {
@@ -270,6 +270,28 @@ pub fn scenario(family: &str, seed: u64) -> Scenario {
             let n = rng.random_range(1..4);
             sc.streams = streams(rng, n, 20_000);
             sc.deadline_us = 200_000_000;
+        }
+        // an otherwise honest connection in which the victim receives one protocol-violating frame
+        "violation" => {
+            let n = rng.random_range(2..5);
+            sc.streams = streams(rng, n, 30_000);
+            // make sure every stream kind exists in both directions
+            sc.streams.push(StreamSpec { opener: "c".into(), bidi: false, send: 5000, chunk: 1000, finish: true, ..Default::default() });
+            sc.streams.push(StreamSpec { opener: "s".into(), bidi: false, send: 5000, chunk: 1000, finish: true, ..Default::default() });
+            sc.streams.push(StreamSpec { opener: "c".into(), bidi: true, send: 20_000, reply: 20_000, chunk: 1000, reply_chunk: 1000, finish: true, read_delay_us: 2_000, ..Default::default() });
+            for sp in &mut sc.streams { sp.start_us = 0; sp.read_delay_us = sp.read_delay_us.max(500); }
+            let victim = pick(rng, &["c", "s"]);
+            let kinds = ["stream_beyond_sd", "stream_beyond_max_streams", "reset_final_shrink", "data_after_fin", "local_unopened", "send_only_stream",
+                         "max_stream_data_recv_only", "stop_sending_recv_only", "max_streams_huge", "new_cid_bad_rpt", "handshake_done", "conn_data_beyond", "stream_in_handshake",
+                         "reset_beyond_sd", "fin_below_received"];
+            let kind = kinds[(seed % kinds.len() as u64) as usize];
+            if kind == "conn_data_beyond" {
+                let l = if victim == "c" { &mut sc.c } else { &mut sc.s };
+                l.data_window = 4000;
+            }
+            sc.violation = Some(Violation { victim: victim.into(), kind: kind.into(), nth: rng.random_range(1..12), after_us: pick(rng, &[0u64, 100_000, 250_000]) });
+            net.delay_us = 20_000;
+            sc.deadline_us = 30_000_000;
         }
         _ => panic!("unknown family {family}"),
     }
